@@ -21,7 +21,10 @@ CLAIMED = {
               'ranges unrolled). FINDER-LOOKAHEAD: a match finder holds a position back until the look-ahead its insertion '
               'routine compares is there (binary tree: nice_len; hash chains: the hash width). PENDING-RESET-ORDER: the pending '
               'counter is cleared before the replay call and never stored after it. SLOT-TABLE-EXTENT: the distance-slot price '
-              'table has get_dist_slot(e) + k entries with e >= dict_size - 1, k >= 1 (monotonicity of get_dist_slot assumed).',
+              'table has get_dist_slot(e) + k entries with e >= dict_size - 1, k >= 1 (monotonicity of get_dist_slot assumed). '
+              'FULL-TRACKS-POS: every LZDecoder method that advances the write position compares `full` with the new position '
+              'before returning (one checked exception: the wrap-around branch of repeat, dictionary full). MOVE-KEEPS-HISTORY '
+              '(see C15).',
               'match finder/window invariants (matches only inside the retained window), look-ahead bookkeeping, the optimal '
               'parser\'s prices and node links, range-coder carry and flush length, 31-bit renormalisation, arithmetic offsets of symbols (len - 2, slot '
               'bases): all depend on run-time values.'),
@@ -33,7 +36,7 @@ CLAIMED = {
               'COUNTER-TRUTH: byte counters advance by the count the sink reported; FORMULA-TWIN: shared size formulas of '
               'writer and reader are the same expression; FILTER-ARG-PURE: filter constructor arguments depend on the header-visible '
               'property only; STAGING-APPEND: the unit staging buffer is only appended to or taken whole; VALIDATE-PARITY and '
-              'FORMAT-OVERRIDES (see C19).',
+              'FORMAT-OVERRIDES (see C19); FULL-TRACKS-POS (see C01: a stored LZMA2 chunk leaves the dictionary fill level right).',
               'field-order/width agreement of headers and trailers (LAYOUT-SEQ not built), CRC values, index arithmetic, LZIP '
               'dictionary byte rounding.'),
     'C03': _c('static: ordering (reachability) rule + finite flag model',
@@ -120,7 +123,9 @@ CLAIMED = {
               'position arithmetic is modulo 2^32. TAIL-FORWARD: a filter writer never forwards bytes its filter has not '
               'processed (reports the BCJWriter defect as a known finding). SCAN-COVERAGE: every BCJ routine returns early for '
               'len < W and enters its scan loop for len = W (the last instruction slot of a buffer is examined). CARRY-SOURCE: '
-              'BCJ2Reader copies the carried bytes of a split address from the position decode() left, never from the reset one.',
+              'BCJ2Reader copies the carried bytes of a split address from the position decode() left, never from the reset one. '
+              'MASK-AGEING-TWIN: the two sites of the x86 filter that age prev_mask (inside the loop, at the end of the call) '
+              'use one condition on the distance.',
               'the numeric identity decode(encode(x)) = x itself, equality with the reference implementation\'s output, the BCJ2 '
               'decoder (no encoder twin in the crate), the RISC-V and ARM64 instruction repacking where the two directions are '
               'structurally different (reported as not decided), buffer-boundary handling inside BCJReader.'),
@@ -132,7 +137,8 @@ CLAIMED = {
     'C13': _c('static: call-graph effect analysis + data-flow from scheduling sources',
               'DET-EFFECT (no nondeterminism source / uninitialised memory reachable from the writers), SCHED-FLOW (no value '
               'derived from worker timing, queue lengths or progress counters reaches a cut decision or an emitted byte; helper '
-              'predicates inlined), FRESH-CODEC, SEQ-ORDER, PENDING-PAIR, LOOKAHEAD-TWIN.',
+              'predicates inlined), FRESH-CODEC, SEQ-ORDER, PENDING-PAIR, LOOKAHEAD-TWIN, LOOKAHEAD-HORIZON (the look-ahead the '
+              'window guarantees covers the optimal parser\'s horizon = length of its opts array, and one maximal match in fast mode).',
               'independence from the write partition inside the LZ window (numeric relation between positions).'),
     'C14': _c('static: symbolic sign analysis of the normalisation kernels; slice-shape twin rule; control-dependence rule on the assembly dispatch',
               'NORM-NONNEG: scalar, AVX2 and SSE4.1 position-normalisation kernels all store max(p,o)-o (>= 0, 0 when p <= o). '
@@ -146,7 +152,8 @@ CLAIMED = {
               'std/no_std error kinds (semantic equivalence of numeric code needs execution or a solver).'),
     'C15': _c('static: who-may-be-unsafe confinement + per-site bounds obligations on provenance',
               'UNSAFE-CONFINE (unsafe only in four modules; zero in no_std without optimization), UNSAFE-GUARD (11 sites), '
-              'GUARD-FIELD-WRITERS, ASM-CLAMP.',
+              'GUARD-FIELD-WRITERS, ASM-CLAMP, MOVE-KEEPS-HISTORY (the window move offset is read_pos + c - keep_size_before '
+              'with c <= 1, rounded DOWN by the alignment mask: the history the unchecked readers reach into is kept).',
               'the non-local precondition of extend_match (read_pos + current_len >= distance) which rests on match-finder/window '
               'invariants.'),
     'C16': _c('static: who-reads-how classification of every source access in the single-stream decoders',
